@@ -207,6 +207,43 @@ def check(ctx, need):
         for b, e in rerrs:
             ctx.ob(guarded_any(wr, b, ZERO), 'adapter read reports an error only when no byte has been copied in this call (guards: %s)' % '; '.join(guard_strs(wr, b))[-160:],
                    'ws|read-err-after-data|%s' % ('would-block' if e is not None and 'WouldBlock' in show(e) else 'final'), loc=wr.loc())
+        # ---- added after the mutation sweep: the read adapter as a whole (refill, store, drop, loop condition, outcomes)
+        NOTFULL = [r'^\(bytes_read < slice::len\(buf\)\)$', r'^!\(slice::len\(buf\) <= bytes_read\)$']
+        rvs_mc = prims.ret_variants(mc)
+        amount = [show(e) for b_, e in rvs_mc if cp and b_ in mc.reach([cp[0].bb])]
+        others = [show(e) for b_, e in rvs_mc if not (cp and b_ in mc.reach([cp[0].bb]))]
+        ctx.ob(len(amount) == 1 and amount[0].startswith('Ord::min(') and set(others) <= {'0'} and cp and not any(b_ in mc.reach(list(mc.graph()[0][cp[0].bb])) for b_, e in rvs_mc if show(e) == '0'),
+               'the message cursor reports exactly the number of bytes it copied (after the copy: %s; without a copy: %s)' % (amount, others), 'ws|cursor-returns', loc=mc.loc())
+        for c in rc:
+            ctx.ob(guarded_any(wr, c.bb, NOTFULL), 'a message is read into the buffer only while the buffer is not full', 'ws|read-loop-cond', loc=c.loc())
+        okfull = [b_ for b_, e in prims.ret_variants(wr) if show(e) == 'Result::Ok{0: bytes_read}' and guarded_any(wr, b_, [r'^\(slice::len\(buf\) <= bytes_read\)$', r'^!\(bytes_read < slice::len\(buf\)\)$'])]
+        fulls = prims.edge_nodes_matching(wr, [r'^\(slice::len\(buf\) <= bytes_read\)$'])
+        ctx.ob(bool(okfull) and any(not (set(wr.reach([e_])) & {c.bb for c in rc}) and any(o_ in wr.reach([e_]) for o_ in okfull) for e_ in fulls),
+               'a full buffer ends the call with the count (no further message is touched)', 'ws|read-full-returns', loc=wr.loc())
+        sr = wr.calls('tungstenite::WebSocket::read')
+        ctx.ob(len(sr) == 1 and guarded_any(wr, sr[0].bb, [r'^self\.current_read_message is None$']) and guarded_any(wr, sr[0].bb, [r'^self\.final_error is None$']),
+               'the next message is fetched only when the current one is used up and no final error is pending', 'ws|read-refill', loc=wr.loc())
+        if len(sr) == 1 and len(rc) == 1:
+            st = [i for (i, s_, pe, rve) in wr.field_writes() if show(pe) == 'self.current_read_message' and show(rve).startswith('MessageCursor::new((WebSocket::read(self.stream))@Ok.0)')]
+            oke = prims.edge_nodes_matching(wr, [r'^WebSocket::read\(self\.stream\) is Ok$'])
+            ctx.ob(len(st) == 1 and bool(oke) and all(rc[0].bb not in wr.reach([e_], avoid=st) for e_ in oke), 'every fetched message becomes the current message before anything is copied', 'ws|read-store', loc=wr.loc())
+            fe = [i for (i, s_, pe, rve) in wr.field_writes() if show(pe) == 'self.final_error' and show(rve).startswith('Option::Some{0: (WebSocket::read(self.stream))@Err.0')]
+            nwb = prims.edge_nodes_matching(wr, [r'^!ws_stream::is_tungstenite_error_would_block\(\(WebSocket::read\(self\.stream\)\)@Err\.0\)$'])
+            ctx.ob(len(fe) == 1 and bool(nwb) and all(not (set(wr.reach([e_], avoid=fe)) & ({sr[0].bb} | set(wr.exits()))) for e_ in nwb),
+                   'a fetch error other than would-block is recorded as the final error (before the loop goes on or the call returns)', 'ws|read-final-store', loc=wr.loc())
+            wb = prims.edge_nodes_matching(wr, [r'^ws_stream::is_tungstenite_error_would_block\(\(WebSocket::read\(self\.stream\)\)@Err\.0\)$'])
+            ctx.ob(bool(wb) and all(not (set(wr.reach([e_])) & (set(fe) | {sr[0].bb, rc[0].bb})) for e_ in wb) and
+                   prims.rets_after(wr, [r'^ws_stream::is_tungstenite_error_would_block\(', r'^\(0 < bytes_read\)$|^!\(bytes_read <= 0\)$']) == {'Ok'},
+                   'a transport would-block ends the call: with the count when something was copied, as would-block otherwise; it is never recorded as the final error', 'ws|read-would-block', loc=wr.loc())
+            fs = prims.edge_nodes_matching(wr, [r'^self\.final_error is Some$'])
+            ctx.ob(bool(fs) and all(not (set(wr.reach([e_])) & {sr[0].bb, rc[0].bb}) for e_ in fs) and prims.rets_after(wr, [r'^self\.final_error is Some$', r'^\(0 < bytes_read\)$|^!\(bytes_read <= 0\)$']) == {'Ok'},
+                   'with a final error pending the call ends: bytes already copied are returned first, the error on the next call', 'ws|read-final-pending', loc=wr.loc())
+            dr = [i for (i, s_, pe, rve) in wr.field_writes() if show(pe) == 'self.current_read_message' and show(rve) == 'Option::None{}']
+            ok = len(dr) == 1 and guarded_any(wr, dr[0], NOTFULL) and dr[0] in wr.reach(list(wr.graph()[0][rc[0].bb]))
+            # completeness: after a cursor read that left room in the buffer, the message is dropped before the loop condition is evaluated again
+            nf_after = [e_ for e_ in prims.edge_nodes_matching(wr, NOTFULL) if e_ in wr.reach(list(wr.graph()[0][rc[0].bb])) and not wr.dominates(e_, rc[0].bb)]
+            ok = ok and bool(nf_after) and all(not (set(wr.reach([e_], avoid=dr)) & ({sr[0].bb, rc[0].bb} | set(wr.exits()))) for e_ in nf_after)
+            ctx.ob(ok, 'a message is dropped exactly when it could not fill the buffer (it is used up); a message that filled the buffer stays current for the next call', 'ws|read-drop', loc=wr.loc())
         oks = [(b, show(e)) for b, e in prims.ret_variants(ww) if e[0] == 'agg' and e[2] == 'Ok']
         snd = ww.calls('tungstenite::WebSocket::send')
         wq = ww.calls('tungstenite::WebSocket::write')
